@@ -433,6 +433,22 @@ func discharge(o *Obligation, prelude, dir string, timeoutS, seed int, both bool
 		o.Status, o.Solver, o.Agree = "discharged", "level-order", 1
 		return
 	}
+	if o.goal != "false" && o.Expect != "sat" && isLockKind(o.Kind) {
+		// lockset obligations are ground and small: two short attempts decide them; a failure is
+		// reported at once (no race, sweep or retry)
+		for _, sp := range []solverSpec{solvers[2], solvers[0]} {
+			r := runSolver(ctx, sp, text, dir, base+".l", 4, seed)
+			o.TimeS += r.dur.Seconds()
+			if r.verdict == "unsat" {
+				o.Status, o.Solver, o.Agree = "discharged", r.solver, 1
+				return
+			}
+			o.Detail += r.solver + "=" + r.verdict + " "
+		}
+		o.Status = "failed"
+		o.Detail = "the lock is not shown to be held here (" + strings.TrimSpace(o.Detail) + ")"
+		return
+	}
 	if o.goal == "false" && o.Expect != "sat" && isLockKind(o.Kind) {
 		// "this point is unreachable": decided by a short refutation attempt of the path condition;
 		// not retried (nothing but an infeasible path can discharge it)
